@@ -4,7 +4,7 @@
    No proofs here. *)
 From Coq Require Import List NArith ZArith Bool.
 From Coq.Strings Require Import Byte.
-From EV Require Import Base.Bytes Base.Zn Base.FreeMod Model.Ideal.
+From EV Require Import Base.Bytes Base.Zn Base.FreeMod Model.Script Model.Ideal Model.Verify.
 Import ListNotations.
 Open Scope Z_scope.
 
@@ -77,20 +77,23 @@ Definition out_at (T : tx) (j : nat) (f : txout -> bool) : bool := match nth_err
 Definition out2_at (T : tx) (j k : nat) (f : txout -> txout -> bool) : bool :=
   negb (Nat.eqb j k) && match nth_error (t_out T) j, nth_error (t_out T) k with Some x, Some y => f x y | _, _ => false end.
 Definition iss_field (w : which_amount) (i : txin) : cvalue := match w with IssAmount => is_amount (in_iss i) | IssKeys => is_keys (in_iss i) end.
-Definition has_conf_asset_output (T : tx) : bool := existsb (fun o => match o_asset o with AConf _ => true | _ => false end) (t_out T).
+(* an output the verifier looks at: not an explicit zero amount on a provably unspendable script (those are skipped entirely —
+   neither their asset nor a surjection proof on them is ever read, so changing those is not detectable and not claimed) *)
+Definition live (o : txout) : bool := negb (skipped o).
+Definition has_conf_asset_output (T : tx) : bool := existsb (fun o => live o && match o_asset o with AConf _ => true | _ => false end) (t_out T).
 
 Definition applicable (t : tamper) (x : tx * list txout) : bool :=
   let '(T, spent) := x in
   match t with
   | TOutValue j v => out_at T j (fun o => value_kind_eq (o_value o) v) && value_u64 v
-  | TOutAsset j a => out_at T j (fun o => asset_kind_eq (o_asset o) a)
+  | TOutAsset j a => out_at T j (fun o => live o && asset_kind_eq (o_asset o) a)
   (* exchanging is about COMMITMENTS (two explicit amounts of one asset can of course be exchanged without unbalancing) *)
   | TSwapValue j k => out2_at T j k (fun x y => value_is_conf (o_value x) && value_is_conf (o_value y))
-  | TSwapAsset j k => out2_at T j k (fun x y => match o_asset x, o_asset y with AConf _, AConf _ => true | _, _ => false end)
+  | TSwapAsset j k => out2_at T j k (fun x y => live x && live y && match o_asset x, o_asset y with AConf _, AConf _ => true | _, _ => false end)
   | TRemoveRp j | TCorruptRp j => out_at T j (fun o => value_is_conf (o_value o) && match o_rp o with Some _ => true | None => false end)
   | TSwapRp j k => out2_at T j k (fun x y => value_is_conf (o_value x) && value_is_conf (o_value y) && asset_kind_eq (o_asset x) (o_asset y))
-  | TRemoveSp j | TCorruptSp j => out_at T j (fun o => match o_asset o, o_sp o with AConf _, Some _ => true | _, _ => false end)
-  | TSwapSp j k => out2_at T j k (fun x y => match o_asset x, o_asset y with AConf _, AConf _ => true | _, _ => false end)
+  | TRemoveSp j | TCorruptSp j => out_at T j (fun o => live o && match o_asset o, o_sp o with AConf _, Some _ => true | _, _ => false end)
+  | TSwapSp j k => out2_at T j k (fun x y => live x && live y && match o_asset x, o_asset y with AConf _, AConf _ => true | _, _ => false end)
   | TScript j s => out_at T j (fun o => value_is_conf (o_value o))
   | TIssuance i w v => match nth_error (t_in T) i with
                        | Some inp => value_is_explicit (iss_field w inp) && value_is_explicit v && value_u64 v
